@@ -2344,6 +2344,10 @@ def clone(node: Node) -> Node:
     A deep copy of the :class:`Module` object.
   """
   graphdef, state = split(node)
+  # numpy arrays are mutable: the copy must not share their buffers
+  state = jax.tree.map(
+    lambda x: x.copy() if isinstance(x, np.ndarray) else x, state
+  )
   return merge(graphdef, state)
 
 
